@@ -777,7 +777,12 @@ impl JobServerHandle {
             if got_token {
                 return Ok(());
             }
-            backoff *= 2;
+            // Only min(1 s, backoff) is ever used: stop doubling once past
+            // the cap, or the Duration overflows (and panics) after about a
+            // minute of waiting.
+            if backoff < Duration::from_secs(1) {
+                backoff *= 2;
+            }
             {
                 let has_token = {
                     let state = self.state.borrow();
